@@ -2,6 +2,9 @@ mod agg;
 mod backends_impl;
 mod create;
 mod linspace;
+// verification hook (off by default): lets harnesses outside the crate call the generators directly
+#[cfg(tevec_verif)]
+pub use linspace::{Linspace, linspace as verif_linspace, range as verif_range};
 mod vec_core;
 
 pub mod export;
